@@ -21,4 +21,5 @@ try:
         for l in lines[:8]: print("    " + l[:300])
 finally:
     subprocess.run(["git", "-C", "/repo", "checkout", "--", path])
-    subprocess.run("rm -f /verif/replays/new/*", shell=True)
+    for i in ids.split(","):
+        subprocess.run("rm -f /verif/replays/new/%s-*" % i, shell=True)
